@@ -76,6 +76,10 @@ func main() {
 		probeViewsMain()
 	case "c17-globals":
 		c17GlobalsMain()
+	case "c17-subjects":
+		for _, s := range historySubjects(true) {
+			fmt.Println(s.Name)
+		}
 	case "c17-cold":
 		if len(os.Args) < 4 {
 			usage()
